@@ -13,8 +13,8 @@ import ast
 from typing import Any, Dict, List, Optional, Set, Tuple
 
 from ..cfg import CFG
-from ..consteval import ConstEval, is_const
-from ..core import (AnalysisError, FuncInfo, ancestors, ap, call_attr, calls, enclosing_stmt, facts, find_calls,
+from ..consteval import ConstEval, EnumVal, enum_members, is_const
+from ..core import (AnalysisError, FuncInfo, ancestors, ap, atoms, call_attr, calls, enclosing_stmt, facts, find_calls,
                     handler_catches_all, handler_reraises, is_none_test, norm, parent, paths_in, src, stores,
                     try_contexts, walk, FUNC_TYPES)
 from .common import (call_index, inlined_funcinfo, origin, cfg_node_expr, cfg_node_fallible, cfg_search, class_methods_reachable, is_benign_call,
@@ -396,6 +396,122 @@ def _registry_attrs(repo, cls) -> Set[str]:
     return out
 
 
+def _deferred_resume_target(arg) -> Optional[str]:
+    """`lambda: X.resume()` or the bound method `X.resume` -> X."""
+    if isinstance(arg, ast.Lambda) and not arg.args.args and isinstance(arg.body, ast.Call) and not arg.body.args \
+            and not arg.body.keywords and isinstance(arg.body.func, ast.Attribute) and arg.body.func.attr == "resume":
+        return ap(arg.body.func.value)
+    if isinstance(arg, ast.Attribute) and arg.attr == "resume":
+        return ap(arg.value)
+    return None
+
+
+def _exitstack_mode(ctx, R, repo, pc: FuncInfo, fns: List[FuncInfo]) -> bool:
+    """The hand-back is registered on a contextlib.ExitStack (`with ExitStack() as S: ... S.callback(lambda:
+    X.resume())`): a registered callback runs on every exit of the with-block, so the obligations become
+    'the registration (guarded by nothing but the presence of X) is reached after every look-up before anything
+    can fail, inside the with-block'.  Returns False when the function does not have that shape."""
+    regs = []
+    for f in fns:
+        for c in calls(f.node, into_defs=False):
+            if call_attr(c) == "callback" and isinstance(c.func, ast.Attribute) and c.args and len(c.args) == 1 \
+                    and not c.keywords and _deferred_resume_target(c.args[0]):
+                regs.append((f, c, ap(c.func.value), _deferred_resume_target(c.args[0])))
+    if not regs:
+        return False
+    ctx.ob(R, f"{pc.qual}: deferred resume registrations found", True, pc.where,
+           f"{[f.qual + ': ' + norm(c) for f, c, _, _ in regs]}")
+    # the stack: `with <...>ExitStack() as S` in the function that holds the look-ups
+    holder = None
+    for f in fns:
+        for w in [x for x in walk(f.node) if isinstance(x, (ast.With, ast.AsyncWith))]:
+            for it in w.items:
+                if isinstance(it.context_expr, ast.Call) and (ap(it.context_expr.func) or "").split(".")[-1] == "ExitStack" \
+                        and not it.context_expr.args and isinstance(it.optional_vars, ast.Name):
+                    holder = (f, w, it.optional_vars.id)
+    ctx.ob(R, f"{pc.qual}: deferred resume is registered on a `with ExitStack() as ...` block", holder is not None, pc.where,
+           "the callback container is not an ExitStack entered with `with`: nothing guarantees the callback runs")
+    if holder is None:
+        return True
+    hf, w, sname = holder
+    cfg = CFG(hf.node)
+    site_var: Dict[int, str] = {}
+    reg_nodes = set()
+    for g, rc, stack_name, v in regs:
+        want = {(f"{v} is not None", True)}
+        got = _guard_facts(rc, g.node)
+        if g is hf:
+            # relative to the look-up's own block: only presence tests of the flow count
+            got = {k for k in got if k[0].startswith(v)}
+        if got == {(v, True)}:
+            want = got
+        ctx.ob(R, f"{g.qual}: {norm(rc)} runs under exactly {sorted(k if p_ else 'not ' + k for k, p_ in want)}", got == want,
+               ctx.w(g, rc), f"registration guarded by {sorted(k if p_ else 'not ' + k for k, p_ in got)}")
+        if g is hf:
+            ctx.ob(R, f"{g.qual}: {norm(rc)} registers on the with-block's stack", stack_name == sname, ctx.w(g, rc))
+            for n in cfg.stmt_nodes_containing(rc):
+                # the presence test that guards the registration stands for it (it is passed when there is no flow)
+                reg_nodes.add(n)
+                site_var[id(n)] = v
+            for a in ancestors(rc):
+                if isinstance(a, ast.If) and {ap(e) or (is_none_test(e) or [None])[0] for e, _ in atoms(a.test, True)} == {v}:
+                    for n in cfg.nodes:
+                        if n.ast is a:
+                            reg_nodes.add(n)
+                            site_var[id(n)] = v
+        else:
+            params = [a.arg for a in g.node.args.args]
+            if g.cls is not None and not any((ap(d) or "") == "staticmethod" for d in g.node.decorator_list):
+                params = params[1:]
+            pre = [n for n in walk(g.node) if isinstance(n, ast.Call) and n is not rc and not is_benign_call(n)
+                   and not any(n is x for x in ast.walk(rc))]
+            ctx.ob(R, f"{g.qual}: nothing fallible besides the registration", not pre, g.where,
+                   f"{[norm(x) for x in pre]} may raise before the resume is registered")
+            sites = [c for c in find_calls(hf.node, g.name, into_defs=False)
+                     if isinstance(c.func, ast.Attribute) and ap(c.func.value) in ("self", "cls")]
+            ok_sites = []
+            for c in sites:
+                bound = dict(zip(params, [ap(a) for a in c.args]))
+                if bound.get(stack_name) == sname and bound.get(v):
+                    ok_sites.append((c, bound[v]))
+            ctx.ob(R, f"{hf.qual}: every {g.name}(...) call passes the with-block's stack and a flow", bool(sites) and
+                   len(ok_sites) == len(sites), hf.where)
+            for c, fv in ok_sites:
+                for n in cfg.stmt_nodes_containing(c):
+                    reg_nodes.add(n)
+                    site_var[id(n)] = fv
+    inside = {id(x) for x in ast.walk(w)}
+    loops = [a for a in ancestors(w) if isinstance(a, (ast.While, ast.For))]
+    ctx.ob(R, f"{hf.qual}: the ExitStack block is one iteration of the pump loop", bool(loops), ctx.w(hf, w))
+    heads = {n for n in cfg.nodes_for(loops[0]) if n.kind == "loop"} if loops else set()
+    regs_attr = _registry_attrs(repo, hf.cls)
+    ctx.require(bool(regs_attr), f"{R}: flow registry attribute of {hf.cls.name} not found")
+
+    def is_lookup(e):
+        return e is not None and any(
+            (isinstance(x, ast.Subscript) and ap(x.value) in regs_attr) or
+            (isinstance(x, ast.Call) and isinstance(x.func, ast.Attribute) and x.func.attr in ("get", "pop")
+             and ap(x.func.value) in regs_attr) for x in ast.walk(e))
+    lookups = [s_ for s_ in stores(hf.node, into_defs=False) if s_.kind == "assign" and isinstance(s_.target, ast.Name)
+               and is_lookup(s_.value)]
+    ctx.floor(R, "flow look-ups in the pump", len(lookups), 2)
+    for s_ in lookups:
+        starts = [n for n in cfg.nodes if n.ast is s_.node]
+        mine = {n for n in reg_nodes if site_var.get(id(n)) == s_.path}
+        path = cfg_search(cfg, starts, target=lambda n: cfg_node_fallible(cfg, n) or n in heads or n is cfg.exit or n is cfg.raise_exit,
+                          avoid=lambda n: n in mine, follow_exc=lambda n: False, start_edges="normal")
+        ctx.ob(R, f"{hf.qual}: flow looked up by `{norm(s_.node)}` is registered for resume before anything can fail",
+               path is None and bool(mine) and id(s_.node) in inside, ctx.w(hf, s_.node),
+               "a call that may raise runs (or the iteration ends) before the resume callback is registered / outside the "
+               "ExitStack block: the intercepted flow stays paused", cfg.describe_path(path) if path else None)
+    fall = [c for c in find_calls(hf.node, "set_state", into_defs=False)]
+    ctx.floor(R, "set_state calls", len(fall), 2)
+    for c in fall:
+        ctx.ob(R, f"{hf.qual}: {norm(c)} failure does not end the pump", _swallowing(c, hf.node), ctx.w(hf, c),
+               "an exception would end the _pump_callbacks task: no later flow is resumed")
+    return True
+
+
 def r3(ctx):
     repo = ctx.repo
     R = "C15.R3"
@@ -406,6 +522,8 @@ def r3(ctx):
     pc = repo.fn("IPCInterceptionAddon._pump_callbacks")
     fns = _pump_fns(repo)
     resumes = [(f, c) for f in fns for c in find_calls(f.node, "resume", into_defs=False) if not c.args]
+    if not resumes and _exitstack_mode(ctx, R, repo, pc, fns):
+        return
     ctx.ob(R, f"{pc.qual}: exactly one resume site", len(resumes) == 1, pc.where,
            f"found {[f.qual + ': ' + norm(c) for f, c in resumes]}")
     if len(resumes) != 1:
@@ -656,6 +774,122 @@ class _MetaInterp:
                 raise _Unsupported(f"statement `{norm(st)}`")
 
 
+def _presence_by_truthiness(ctx, R, repo, cd, ser, des, callable_fields):
+    """serialize/deserialize decide 'is there a region / session' by truthiness of the object itself: sound only
+    while the classes of those objects do not define __bool__ / __len__."""
+    for st in cd.node.body:
+        if not (isinstance(st, ast.AnnAssign) and isinstance(st.target, ast.Name) and st.target.id in callable_fields):
+            continue
+        field = st.target.id
+        tested = False
+        # serialize: `self.<field>()` used as a condition
+        for g in class_methods_reachable(repo, ser, depth=2):
+            for x in walk(g.node, into_defs=True):
+                tests = []
+                if isinstance(x, (ast.IfExp, ast.If, ast.While)):
+                    tests = [x.test]
+                elif isinstance(x, ast.BoolOp):
+                    tests = x.values[:-1] if not isinstance(parent(x), (ast.If, ast.IfExp, ast.While, ast.BoolOp, ast.UnaryOp)) else x.values
+                for t in tests:
+                    for e, _ in atoms(t, True):
+                        if isinstance(e, ast.Call) and ap(e.func) == f"self.{field}" and not e.args:
+                            tested = True
+        # deserialize: the constructor argument of the field is chosen by truthiness of a local
+        for c in [r.value for r in walk(des.node) if isinstance(r, ast.Return) and isinstance(r.value, ast.Call)]:
+            a = _ctor_args(c, _class_fields(cd)).get(field)
+            if isinstance(a, ast.IfExp) and any(isinstance(e, ast.Name) for e, _ in atoms(a.test, True)):
+                tested = True
+        if not tested:
+            continue
+        names = {n.id for n in ast.walk(st.annotation) if isinstance(n, ast.Name)} | \
+            {n.value for n in ast.walk(st.annotation) if isinstance(n, ast.Constant) and isinstance(n.value, str)}
+        for nm in sorted(names):
+            for token in [t for t in nm.replace("[", " ").replace("]", " ").replace(",", " ").split()]:
+                ci = repo.resolve_class(token, cd.module)
+                if ci is None or token in ("Optional", "Callable"):
+                    continue
+                offenders = [f"{c.name}.{m}" for c in repo.mro(ci) for m in ("__bool__", "__len__") if m in c.methods]
+                ctx.ob(R, f"{ci.name}: truthiness means presence (CapData.{field} is tested by truthiness)", not offenders,
+                       f"{ci.module.rel}:{ci.node.lineno}",
+                       f"{offenders} makes a live {ci.name} falsy: CapData.serialize/deserialize then drop the {field} "
+                       f"of the flow (use `is not None` there, or do not overload truthiness)")
+
+
+def _ctor_domain(ctx, R, repo, sd, sf, des):
+    """Every construction of SerializedCapData hands str-annotated fields a str; a field the hydration looks up
+    in an enum by name (`Enum[ser.<field>]`) only ever gets a member name."""
+    ann = {st.target.id: src(st.annotation) for st in sd.node.body if isinstance(st, ast.AnnAssign) and isinstance(st.target, ast.Name)}
+    dflt = {st.target.id: st.value for st in sd.node.body if isinstance(st, ast.AnnAssign) and isinstance(st.target, ast.Name)
+            and st.value is not None}
+    sp = [a.arg for a in des.node.args.args][1]
+    by_name = {}
+    for x in walk(des.node):
+        if isinstance(x, ast.Subscript) and isinstance(x.ctx, ast.Load) and (ap(x.slice) or "").startswith(sp + "."):
+            ci = repo.resolve_class(ap(x.value) or "", des.module)
+            if ci is not None:
+                by_name[ap(x.slice).split(".", 1)[1]] = ci
+    n = 0
+    for f, c in call_index(repo).get(sd.name, []):
+        if any(isinstance(a, ast.Starred) for a in c.args) or any(k.arg is None for k in c.keywords):
+            continue   # rebuilt from a stored mapping (log replay): opaque
+        n += 1
+        ev = ConstEval(repo, f.module)
+        args = _ctor_args(c, sf)
+        for field in sf:
+            e = args.get(field, dflt.get(field))
+            if e is None:
+                continue
+            v = ev.ev(e) if field in args else ConstEval(repo, sd.module).ev(e)
+            if "str" in ann.get(field, "") and (isinstance(v, EnumVal) or (is_const(v) and v is not None and not isinstance(v, str))):
+                ctx.ob(R, f"{f.qual}: SerializedCapData.{field} receives a str", False, ctx.w(f, c),
+                       f"`{norm(e)}` is {v!r}, the field is declared {ann[field]} and read back as a string on hydration")
+            if field in by_name and isinstance(v, str):
+                ctx.ob(R, f"{f.qual}: SerializedCapData.{field}={v!r} names a member of {by_name[field].name}",
+                       v in enum_members(repo, by_name[field]), ctx.w(f, c),
+                       f"hydration does {by_name[field].name}[...] on it: KeyError inside from_state, before the try/finally")
+            elif field in by_name and isinstance(v, EnumVal):
+                pass  # reported above
+    ctx.ob(R, "SerializedCapData constructions checked against the field domains", n >= 1, f"{sd.module.rel}:{sd.node.lineno}",
+           f"{n} construction site(s), enum-by-name fields {sorted(by_name)}")
+
+
+def _queue_cycle(ctx, R, repo):
+    """The two processes exchange flows over two queues with blocking puts from their single event loops: if both
+    queues are bounded, two full queues block both loops for good (no hand-back ever again)."""
+    fcx = repo.fn_opt("HTTPFlowContext.__init__")
+    if fcx is None:
+        raise AnalysisError(f"{R}: anchor HTTPFlowContext.__init__ vanished")
+    queues = {}
+    for st in stores(fcx.node, into_defs=False):
+        if st.kind == "assign" and st.path.startswith("self.") and isinstance(st.value, ast.Call) and \
+                (ap(st.value.func) or "").split(".")[-1] in ("Queue", "JoinableQueue"):
+            size = st.value.args[0] if st.value.args else next((k.value for k in st.value.keywords if k.arg == "maxsize"), None)
+            bounded = False
+            if size is not None:
+                v = ConstEval(repo, fcx.module).ev(size)
+                if isinstance(size, ast.Attribute) and ap(size.value) in ("self", "cls") and fcx.cls is not None:
+                    cv = repo.class_attr(fcx.cls, size.attr)
+                    v = ConstEval(repo, fcx.module).ev(cv) if cv is not None else v
+                bounded = not (isinstance(v, int) and not isinstance(v, bool) and v <= 0)
+            queues[st.path.split(".", 1)[1]] = (bounded, st)
+    ctx.floor(R, "inter-process flow queues", len(queues), 2)
+    aliases = {"callback_queue": "to_proxy_queue"}
+    blocking = set()
+    for f, c in call_index(repo).get("put", []):
+        rp = ap(c.func.value) if isinstance(c.func, ast.Attribute) else None
+        if not rp:
+            continue
+        for q in queues:
+            if q in rp or any(a in rp and tgt == q for a, tgt in aliases.items()):
+                blk = c.args[1] if len(c.args) > 1 else next((k.value for k in c.keywords if k.arg == "block"), None)
+                if not (isinstance(blk, ast.Constant) and blk.value is False):
+                    blocking.add(q)
+    stuck = sorted(q for q, (b, _) in queues.items() if b and q in blocking)
+    ctx.ob(R, "HTTPFlowContext: the two flow queues cannot both block their producer", len(stuck) < 2, fcx.where,
+           f"{stuck} are bounded and written with blocking put() from the two event loops: when both fill up each "
+           f"process waits for the other to drain its queue and no flow is handed back again")
+
+
 def r4(ctx):
     repo = ctx.repo
     R = "C15.R4"
@@ -715,6 +949,9 @@ def r4(ctx):
            f"{n_deref} dereference(s) of {sorted(callable_fields)}")
 
     des = repo.fn("CapData.deserialize")
+    _presence_by_truthiness(ctx, R, repo, cd, ser, des, callable_fields)
+    _ctor_domain(ctx, R, repo, sd, sf, des)
+    _queue_cycle(ctx, R, repo)
     params = [a.arg for a in des.node.args.args]
     ctx.require(len(params) >= 2, "CapData.deserialize lost its serialised-data parameter")
     sp = params[1]
